@@ -120,7 +120,7 @@ class _Builder:
             return v["b"]
         if k == "num":
             x = wire.words_dbl(v["w"])
-            if self.ir and x == x and abs(x) < 2 ** 30 and x == int(x) and not (x == 0 and str(x)[0] == "-"):
+            if self.ir and x == x and abs(x) <= 2 ** 53 and x == int(x) and not (x == 0 and str(x)[0] == "-"):
                 return int(x)
             return x
         if k == "str":
